@@ -768,6 +768,22 @@ def run(chk, facts, tier, only=None):
         chk.expect(cut.get("Opt") == {"depth", "size"} and cut.get("Variant") == {"depth", "size"}, "budget:cut-off-reads-both",
                    f"RandState::any: the Opt and Variant arms must switch to the smallest alternative when depth <= 0 or size <= 0; "
                    f"tests found: {cut}")
+        # errors end the generation: a recursive any(..) that fails has left its push_state un-popped (the `?` exits skip pop_state), so its
+        # error must travel to the top; swallowed, the next pop_state hits `assert_eq!(self.path.pop(), ..)`
+        par0 = parent_map(h["body"])
+        recs = [x for x in walk(h["body"]) if x.get("k") == "mcall" and x["m"] == "any" and (x.get("callee") or "").endswith("RandState::<'_>::any")]
+        chk.floor("recursive any(..) calls in RandState::any", len(recs), 4)
+        for i, x in enumerate(recs):
+            up = par0.get(id(x))
+            hops = 0
+            while up is not None and up.get("k") in ("block", "ref", "un") and hops < 3:
+                up = par0.get(id(up))
+                hops += 1
+            tried = up is not None and up.get("k") == "call" and (callee(up) or "").endswith("Try::branch")
+            chk.expect(tried, f"errors-propagate:any#{i}",
+                       f"RandState::any: the result of the recursive call `{show(x)[:50]}` is not propagated with `?`: a failed sub-generation leaves "
+                       f"its state pushed, and continuing after it makes the next pop_state panic instead of returning the error",
+                       where=f"{h['span']['file']}:{x.get('ln')}", ok_detail="self.any(..)?")
         # pairing
         par = parent_map(h["body"])
         pushes = [x for x in walk(h["body"]) if x.get("k") == "mcall" and x["m"] == "push_state"
